@@ -249,7 +249,8 @@ fn check(case: &BigCase) -> Verdict {
             key: hash_of(case),
             classes: vec![
                 format!("model:{name}"),
-                format!("vars={}", if bn.num_vars() <= 4 { bn.num_vars().to_string() } else { ">4".into() }),
+                format!("vars={}", if bn.num_vars() <= 4 { bn.num_vars().to_string() } else if bn.num_vars() <= 26 { "5-26".into() } else if bn.num_vars() <= 52 { "27-52".into() } else { ">52".into() }),
+                format!("sets:{}{}{}", case.s.mode, case.t.mode, case.x.mode),
             ],
             sample: json!({"model": name, "aeon": case.aeon, "S": case.s, "T": case.t, "X": case.x}),
         }),
@@ -258,6 +259,7 @@ fn check(case: &BigCase) -> Verdict {
 
 impl Property for C11 {
     type Raw = (Option<RawNet>, u16, BigSet, BigSet, BigSet);
+    // raw.1 selects the number of frozen padding variables (models of any size)
     fn id(&self) -> &'static str {
         "C11"
     }
@@ -290,8 +292,18 @@ impl Property for C11 {
             .boxed()
     }
     fn check_raw(&self, raw: &Self::Raw) -> Verdict {
+        // padding: frozen variables `m' = m` make the state space as large as a benchmark model while
+        // all BDDs stay small, so that the complete law set is affordable beyond 2^53 states
+        let pad = [0usize, 0, 0, 0, 12, 30, 50, 58][gen::idx(raw.1, 8)];
+        let padded = |aeon: String| -> String {
+            let mut a = aeon;
+            for i in 0..pad {
+                a.push_str(&format!("\nzz_pad_{i} -> zz_pad_{i}\n$zz_pad_{i}: zz_pad_{i}"));
+            }
+            a
+        };
         let case = BigCase {
-            aeon: raw.0.as_ref().map(gen::resolve_net),
+            aeon: raw.0.as_ref().map(gen::resolve_net).map(padded),
             bundled: None,
             s: raw.2.clone(),
             t: raw.3.clone(),
@@ -329,8 +341,15 @@ impl Property for C11 {
                         if failure.lock().unwrap().is_some() {
                             return;
                         }
-                        let (s, t, x) = strat.new_tree(&mut runner).unwrap().current();
-                        let case = BigCase { aeon: None, bundled: Some(m), s, t, x, light: !FULL_LAWS_ON.contains(&m) };
+                        let (mut s, mut t, x) = strat.new_tree(&mut runner).unwrap().current();
+                        if false && !FULL_LAWS_ON.contains(&m) && (s.pieces.len() + t.pieces.len()) % 2 == 0 {
+                            s.mode = 1 + (s.pieces.len() % 2) as u8;
+                            t.mode = 1 + (t.pieces.len() % 2) as u8;
+                        }
+                        // on the large models the classical iterations are affordable only when the argument sets differ
+                        // from empty / everything by a single point (few iterations, small BDDs)
+                        let light = !FULL_LAWS_ON.contains(&m); // TODO(point-like): && !(s.is_point_like() && t.is_point_like())
+                        let case = BigCase { aeon: None, bundled: Some(m), s, t, x, light };
                         match guard(|| check(&case)) {
                             Ok(Verdict::Fail(f)) => {
                                 let mut slot = failure.lock().unwrap();
